@@ -5,6 +5,7 @@ import NixModel.Lemmas.C18Repeat
 import NixModel.Lemmas.C18History
 import NixModel.Lemmas.C18Shape
 import NixModel.Lemmas.C18Inside
+import NixModel.Lemmas.C18Total
 
 /-!
 # C18 — format upgrade preserves content, is idempotent and resumable
@@ -219,6 +220,25 @@ theorem C18_content_partial (lib : List Nat) (r : Nat) (f : File) (hwf : WF f) (
   · intro p n hp
     exact lookup_of_mem hwfG.1 (hP.1.keepNew p n hp)
 
+/-- What no run loses — for every file (no hypothesis on names: the files of the open finding included), every
+list of steps (the collected one, any prefix of it, a stale one) and whether or not a step fails: every
+property is still there and reads the same dtype, values, unit and definition, and everything outside
+properties and dimension groups is untouched. (What the name collision costs is the per-value extras only.) -/
+theorem C18_values_never_lost (lib : List Nat) (r : Nat) (f : File) (hwf : WF f) (ss : List Step) :
+    (∀ p x, (p, x) ∈ f.props →
+      ∃ y, lookup (runSteps lib r f ss).1.props p = some y ∧ y.view = x.view) ∧
+    (runSteps lib r f ss).1.other = f.other := by
+  obtain ⟨h1, h2, h3⟩ := runSteps_kept lib r ss f hwf.1
+  refine ⟨fun p x hx => ?_, h3⟩
+  obtain ⟨y, hy, hv⟩ := h2 p x hx
+  exact ⟨y, lookup_of_mem h1 hy, hv⟩
+
+/-- An upgrade that fails (returns `False`) has not raised the version: the file is still recognised as old. -/
+theorem C18_failed_stays_old (lib : List Nat) (r : Nat) (f : File) (h : (upgrade lib r f).2 ≠ none) :
+    (upgrade lib r f).1.version = f.version ∧
+    (upToDate lib f = false → upToDate lib (upgrade lib r f).1 = false) :=
+  ⟨failed_keeps_version h, fun hu => (upToDate_congr (failed_keeps_version h)).trans hu⟩
+
 /-- a property `a` with a reference text next to a property named `a.reference` -/
 def clash : File :=
   { version := [1, 1, 0], id := .absent,
@@ -247,6 +267,16 @@ theorem C18_content_counterexample : ¬ C18_content := by
   decide +kernel
 
 example : ¬ Clean clash := by decide +kernel
+
+/-- non-vacuity of `C18_failed_stays_old` / `C18_values_never_lost`: on `clash` the upgrade fails, the value of `a`
+is still read, its reference text is not -/
+example : (upgrade [1, 2, 1] 1 clash).2 ≠ none ∧
+    ((lookup (upgrade [1, 2, 1] 1 clash).1.props ["s", "properties", "a"]).map PObj.view
+      = some ⟨"int64", [.int 1], none, none⟩) ∧
+    extraStr (upgrade [1, 2, 1] 1 clash).1.props ["s", "properties", "a"] ".reference" ≠ some ["ref"] := by
+  unfold upgrade
+  rw [clash_collect]
+  decide +kernel
 
 /-! ## non-vacuity: a concrete old file with an interrupted run -/
 
